@@ -1,6 +1,6 @@
 (** The laws of the signature for the real part models (Model/FontReal.v). *)
 Require Import Norad.Model.GlifSpec Norad.Model.GlifDen Norad.Model.GlifEncode.
-Require Import Norad.Proofs.GlifParseP Norad.Proofs.GlifEncodeP Norad.Proofs.GlifRoundtripP.
+Require Import Norad.Proofs.GlifParseP Norad.Proofs.GlifEncodeP Norad.Proofs.GlifRoundtripP Norad.Proofs.GlifFullP.
 Require Import Norad.Model.FontRT Norad.Model.FontRealInfo Norad.Model.FontReal Norad.Proofs.FontRTP
                Norad.Proofs.FontRealInfoP.
 Open Scope N_scope.
@@ -11,7 +11,7 @@ Variables ff ff3 : fl -> str.
 Variable fi : Z -> str.
 Variable fh : N -> str.
 Variable K : codecs.
-Hypothesis L1 : L1_glif pf ff ff3 fh.
+Hypothesis L1 : L1_glif pf ff ff3 fi fh.
 
 Local Notation close3 := (fun x y : fl => pf (chan ff3 x) = Some y).
 
@@ -44,29 +44,30 @@ Proof.
   destruct H2 as [H2 _]. f_equal. apply color_fixed_eq; assumption.
 Qed.
 
-Lemma point_written_id : forall p, plib p = None -> point_written p = p.
-Proof. intros [x y t s n i l] H. simpl in H. subst. reflexivity. Qed.
-Lemma contour_written_id : forall c,
-  clib c = None /\ Forall (fun p => plib p = None) (cpoints c) -> contour_written c = c.
+Lemma point_rt_id : forall p, slib (plib p) = plib p -> point_rt p = p.
+Proof. intros [x y t s n i l] H. simpl in H. unfold point_rt. simpl. rewrite H. reflexivity. Qed.
+Lemma contour_rt_id : forall c,
+  slib (clib c) = clib c /\ Forall (fun p => slib (plib p) = plib p) (cpoints c) -> contour_rt c = c.
 Proof.
-  intros [ps i l] [H1 H2]. simpl in *. subst. unfold contour_written. simpl. f_equal.
-  induction H2 as [|p ps Hp F IH]; [reflexivity|]. simpl. rewrite point_written_id by assumption. f_equal. exact IH.
+  intros [ps i l] [H1 H2]. simpl in *. unfold contour_rt. simpl. rewrite H1. f_equal.
+  induction H2 as [|p ps Hp F IH]; [reflexivity|]. simpl. rewrite point_rt_id by assumption. f_equal. exact IH.
 Qed.
 Lemma map_id_in {A} (f : A -> A) l : (forall a, In a l -> f a = a) -> map f l = l.
 Proof. induction l; simpl; intros H; [reflexivity|]. rewrite H by auto. f_equal. auto. Qed.
 
-(** the real glif codec: exact round trip on [wf_glyph] *)
+(** the real glif codec: exact round trip on [wf_glyph] (from C02_roundtrip) *)
 Lemma glif_rt : forall o g, wf_glyph pf ff3 g ->
   exists c g', enc (P_glif_real pf ff ff3 fi fh K) o g = Some c /\
                dec (P_glif_real pf ff ff3 fi fh K) c = Some g' /\ g = g'.
 Proof.
-  intros o g (GR & GF & LF & NS & CW & CH & CI & CG & CA & CK).
-  destruct L1 as (H_ff & H_ff3 & H_fh).
-  destruct (roundtrip_libfree pf ff ff3 fi fh (fst o) close3 H_ff) with (g := g)
+  intros o g (GR & GF & LV & LP & NS & CW & CH & CI & CG & CA & CK & CC & CL).
+  destruct L1 as (H_ff & H_ff3 & H_fh & H_fi).
+  assert (F3 : c02_f3 (fst o) g = false).
+  { unfold c02_f3. rewrite LP, NS. simpl. rewrite andb_false_r. reflexivity. }
+  destruct (roundtrip_full pf ff ff3 fi fh (fst o) close3 H_ff) with (g := g)
     as (t & g' & E1 & E2 & R1 & R2 & R3 & R4 & R5 & R6 & R7 & R8 & R9 & R10 & R11); auto.
   { intros x Hx. destruct (H_ff3 x Hx) as [A [y [Hy Hu]]]. split; [exact A|]. exists y. auto. }
   simpl. rewrite E1. eexists. exists g'. split; [reflexivity|]. simpl. rewrite E2. split; [reflexivity|].
-  pose proof LF as (LB & LA & LG & LC & LK).
   destruct g as [n w h cps note img gs as_ ks cs lib]. destruct g' as [n' w' h' cps' note' img' gs' as' ks' cs' lib'].
   simpl in *. subst. f_equal.
   - symmetry. exact CW.
@@ -77,28 +78,27 @@ Proof.
     + symmetry. apply ocolor_fixed_eq; assumption.
     + symmetry. exact CI1.
   - symmetry. apply (Forall2_eq_in _ _ _ R7). intros a a' Ha (G1 & G2 & G3 & G4 & G5).
-    rewrite Forall_forall in CG, LG. specialize (CG a Ha). specialize (LG a Ha). simpl in *.
-    destruct a as [l nm c i lb]. destruct a' as [l' nm' c' i' lb']. simpl in *. subst. f_equal.
+    rewrite Forall_forall in CG. destruct (CG a Ha) as [C1 C2].
+    destruct a as [l nm c i lb]. destruct a' as [l' nm' c' i' lb']. simpl in *. subst. f_equal; [|exact C2].
     apply ocolor_fixed_eq; assumption.
   - symmetry. apply (Forall2_eq_in _ _ _ R8). intros a a' Ha (A1 & A2 & A3 & A4 & A5 & A6).
-    rewrite Forall_forall in CA, LA. specialize (CA a Ha). specialize (LA a Ha). simpl in *.
-    destruct a as [x y nm c i lb]. destruct a' as [x' y' nm' c' i' lb']. simpl in *. subst. f_equal.
+    rewrite Forall_forall in CA. destruct (CA a Ha) as [C1 C2].
+    destruct a as [x y nm c i lb]. destruct a' as [x' y' nm' c' i' lb']. simpl in *. subst. f_equal; [|exact C2].
     apply ocolor_fixed_eq; assumption.
-  - symmetry. apply map_id_in. intros c Hc. rewrite Forall_forall in CK, LK.
-    specialize (CK c Hc). specialize (LK c Hc). destruct c as [b tr i lb]. unfold comp_written. simpl in *.
-    subst. rewrite CK. reflexivity.
-  - symmetry. apply map_id_in. intros c Hc. rewrite Forall_forall in LC. apply contour_written_id. apply LC. exact Hc.
+  - symmetry. apply map_id_in. intros c Hc. rewrite Forall_forall in CK.
+    destruct (CK c Hc) as [C1 C2]. destruct c as [b tr i lb]. unfold comp_rt. simpl in *. rewrite C1, C2. reflexivity.
+  - symmetry. apply map_id_in. intros c Hc. rewrite Forall_forall in CC. apply contour_rt_id. apply CC. exact Hc.
+  - symmetry. exact CL.
 Qed.
 
+(** with an exact round trip the write options cannot matter: both outputs read back as [g] *)
 Lemma glif_opts : forall o1 o2 g c1 c2, wf_glyph pf ff3 g ->
   enc (P_glif_real pf ff ff3 fi fh K) o1 g = Some c1 -> enc (P_glif_real pf ff ff3 fi fh K) o2 g = Some c2 ->
   dec (P_glif_real pf ff ff3 fi fh K) c1 = dec (P_glif_real pf ff ff3 fi fh K) c2.
 Proof.
-  intros o1 o2 g c1 c2 (_ & _ & LF & _) H1 H2. simpl in H1, H2.
-  rewrite (encode_options_irrelevant ff fi ff3 fh (fst o1) (fst o2) g) in H1.
-  - rewrite H1 in H2. inversion H2. reflexivity.
-  - intros lib Hl. unfold written_lib in Hl. rewrite (dump_lib_free g LF) in Hl. destruct LF as [LB _].
-    rewrite LB in Hl. simpl in Hl. inversion Hl. reflexivity.
+  intros o1 o2 g c1 c2 Hw H1 H2.
+  destruct (glif_rt o1 g Hw) as (d1 & g1 & A1 & B1 & E1). destruct (glif_rt o2 g Hw) as (d2 & g2 & A2 & B2 & E2).
+  rewrite H1 in A1. rewrite H2 in A2. inversion A1; inversion A2; subst. congruence.
 Qed.
 
 Lemma glif_real_ok : part_ok (P_glif_real pf ff ff3 fi fh K).
@@ -249,11 +249,80 @@ Proof.
   destruct (Forall2_in_l _ _ _ _ E0 Hl) as [e [_ He]]. eapply load_layer_parsed; eauto.
 Qed.
 
+(** ** C04 for the real signature: closedness of everything but the glyph domain *)
+Hypothesis HK : codecs_ok K.
+Hypothesis CK : codecs_closed K.
+
+Lemma lift_closed {X} (p : part (K_content K) (K_opts K) X) : part_closed p -> part_closed (lift K p).
+Proof. intros H c x Hd. simpl in Hd. destruct c; try discriminate. exact (H _ _ Hd). Qed.
+
+Lemma real_closed0 : sig_closed0 RS.
+Proof.
+  destruct CK. constructor; simpl; try (apply lift_closed; assumption).
+  - apply info_real_closed.
+  - exact kc_meta_norad.
+  - (* identifiers of the guidelines the info reader returns *)
+    intros c si Hd g Hg id Hid. destruct c as [c|d|r]; try discriminate.
+    destruct (FI.fi_load r) as [i| |] eqn:El; try discriminate. inversion Hd; subst si. clear Hd.
+    unfold of_info in Hg. simpl in Hg. destruct (FI.i_guides i) as [gs|] eqn:Eg; [|contradiction].
+    simpl in Hg. apply in_map_iff in Hg. destruct Hg as [x [Ex Hx]]. subst g. simpl in Hid.
+    pose proof (kc_info_ids r i El gs Eg) as F. rewrite Forall_forall in F. exact (F x Hx id Hid).
+  - intros i Hi. apply (info_ok_real_nodup _ i Hi).
+Qed.
+
+Lemma glyph_rules_set_gname : forall n g, name_valid n = true -> glyph_rules g -> glyph_rules (set_gname n g).
+Proof. intros n g Hn (R1 & R). split; [exact Hn|exact R]. Qed.
+
+(** the names under which glyphs are loaded are valid names *)
+Lemma loaded_glyph_names_valid : forall (t : tree RS) (f : font RS),
+  load RS t = Ok f ->
+  Forall (fun l => Forall (fun e : str * str * glyph => name_valid (fst (fst e)) = true) (l_glyphs l)) (f_layers RS f).
+Proof.
+  intros t f H.
+  destruct (load_elim RS t f H) as (mc & m & olib & il & og & ok & ls & _ & _ & _ & _ & _ & _ & _ & E8 & _ & F2 & _).
+  rewrite F2. unfold load_layers in E8. binv E8.
+  destruct (lc_precheck RS [] [] a); [discriminate|]. binv E8.
+  destruct (find_idx (is_default_dir RS) a0) as [i|]; [|discriminate]. inversion E8; subst ls.
+  apply Forall_forall. intros l Hl. apply in_move_to_front in Hl.
+  apply mapM_Forall2 in E0. apply Forall2_flip in E0.
+  destruct (Forall2_in_l _ _ _ _ E0 Hl) as [e [_ He]]. cbv beta in He. unfold load_layer in He.
+  destruct (alookup (snd e) (t_dirs RS t)) as [d|]; [|discriminate].
+  destruct (ld_contents RS d) as [cc|]; [|discriminate].
+  destruct (dec (P_contents RS) cc) as [cl|] eqn:Ecl; [|discriminate].
+  destruct (negb (nodupb (map (fun e0 : str * str => lower RS (snd e0)) cl))); [discriminate|].
+  binv He. inversion He; subst l. simpl.
+  assert (Hn : Forall (fun e0 : str * str => name_valid (fst e0) = true) cl).
+  { simpl in Ecl. destruct cc as [cb|?|?]; try discriminate. destruct CK. exact (kc_contents_names cb cl Ecl). }
+  apply mapM_Forall2 in E1. apply Forall_forall. intros x Hx. apply Forall2_flip in E1.
+  destruct (Forall2_in_l _ _ _ _ E1 Hx) as [ce [Hce Hld]]. cbv beta in Hld. unfold load_glyph in Hld.
+  destruct (alookup (snd ce) (ld_glifs RS d)); [|discriminate]. destruct (dec (P_glif RS) t0); [|discriminate].
+  inversion Hld; subst x. simpl. rewrite Forall_forall in Hn. exact (Hn ce Hce).
+Qed.
+
+(** the fixed point for every format-3 tree the real reader loads, assuming of the loaded glyphs only
+    what the reader does not guarantee ([glyph_rt_domain]) *)
+Theorem fixed_point_real : forall o (t : tree RS) (f : font RS) mc m,
+  load RS t = Ok f -> t_meta RS t = Some mc -> dec (P_meta RS) mc = Some m -> m_version m = 3 ->
+  Forall (fun l => Forall (fun e : str * str * glyph => glyph_rt_domain pf ff3 (snd e)) (l_glyphs l)) (f_layers RS f) ->
+  exists t', save RS o f = Ok t' /\ exists f', load RS t' = Ok f' /\ font_equiv RS f f'.
+Proof.
+  intros o t f mc m H Hm1 Hm2 Hv HD.
+  apply (fixed_point0 RS (real_sig_ok HK) real_closed0 o t f mc m H Hm1 Hm2 Hv).
+  pose proof (loaded_glyphs_rules_real t f H) as HR. pose proof (loaded_glyph_names_valid t f H) as HN.
+  rewrite Forall_forall in *. intros l Hl. specialize (HR l Hl). specialize (HN l Hl). specialize (HD l Hl).
+  rewrite Forall_forall in *. intros e He.
+  destruct (HR e He) as (g & G1 & G2 & G3). destruct (HD e He) as (D1 & D2 & D3 & D4 & D5).
+  split; simpl.
+  - unfold wf_glyph. split; [rewrite G3; apply glyph_rules_set_gname; [exact (HN e He)|exact G1]|]. auto.
+  - rewrite G3. reflexivity.
+Qed.
+
 End RealP.
 
 Lemma real_sample_wf : forall pf ff3, wf_glyph pf ff3 g_real_sample.
 Proof.
-  intros pf ff3. unfold wf_glyph. split; [|split; [|split; [|split; [reflexivity|]]]].
+  intros pf ff3. unfold wf_glyph.
+  split; [|split; [|split; [vm_compute; reflexivity|split; [vm_compute; reflexivity|split; [reflexivity|]]]]].
   - unfold glyph_rules, g_real_sample; cbn [gname gcps gimage gguides ganchors gcomps gcontours].
     split; [reflexivity|]. split; [repeat constructor; cbn; intuition discriminate|].
     split; [repeat constructor|]. split; [exact I|]. split; [constructor|].
@@ -265,12 +334,8 @@ Proof.
       split; [repeat constructor; cbn; congruence|]. split; [reflexivity|congruence].
     + apply Norad.Proofs.GlifSpecP.nodupb_spec. vm_compute. reflexivity.
   - unfold glyph_finite, g_real_sample, contour_finite, transform_finite; cbn. repeat split; repeat constructor.
-  - unfold lib_free, g_real_sample; cbn. repeat split; repeat constructor.
-  - unfold glyph_canon, g_real_sample; cbn. repeat split; repeat constructor.
+  - unfold glyph_canon, g_real_sample; cbn. repeat split; repeat constructor; vm_compute; reflexivity.
 Qed.
-
-(** every lawful signature gives the base laws (so the hypothesis [base_laws] is satisfiable whenever
-    [sig_ok] is) *)
 
 (** ** the remaining hypotheses are jointly satisfiable: codecs that keep the values as they are *)
 Inductive kcontent : Type :=
@@ -285,7 +350,12 @@ Definition id_codecs : codecs := {|
   K_groups := kpart KGroups (fun c => match c with KGroups m => Some m | _ => None end) eq;
   K_kerning := kpart KKerning (fun c => match c with KKerning m => Some m | _ => None end) eq;
   K_lc := kpart KPairs (fun c => match c with KPairs m => Some m | _ => None end) eq;
-  K_contents := kpart KPairs (fun c => match c with KPairs m => Some m | _ => None end) eq;
+  K_contents := {| enc := fun _ l => Some (KPairs l);
+                   dec := fun c => match c with
+                                   | KPairs m => if forallb (fun e => name_valid (fst e)) m then Some m else None
+                                   | _ => None
+                                   end;
+                   wf := fun l => forallb (fun e : str * str => name_valid (fst e)) l = true; peq := eq |};
   K_li := kpart KLi (fun c => match c with KLi m => Some m | _ => None end)
                 (fun a b => orel eq (fst a) (fst b) /\ orel pd_eq (snd a) (snd b));
   K_ceq := eq; K_wf_color := fun _ => True; K_lc_entry_wf := fun _ => True;
@@ -304,9 +374,19 @@ Lemma pd_eq_sym : forall a b, pd_eq a b -> pd_eq b a. Proof. intros a b H k. sym
 Lemma pd_eq_trans : forall a b c, pd_eq a b -> pd_eq b c -> pd_eq a c.
 Proof. intros a b c H1 H2 k. rewrite H1. apply H2. Qed.
 
+Lemma id_contents_ok : part_ok (K_contents id_codecs).
+Proof.
+  constructor; simpl.
+  - reflexivity.
+  - intros x y H. symmetry. exact H.
+  - intros x y z H1 H2. congruence.
+  - intros o x Hw. exists (KPairs x), x. rewrite Hw. auto.
+  - intros o1 o2 x c1 c2 _ H1 H2. inversion H1; inversion H2; subst. reflexivity.
+Qed.
+
 Theorem id_codecs_ok : codecs_ok id_codecs.
 Proof.
-  constructor; simpl;
+  constructor; simpl; try exact id_contents_ok;
     try (apply kpart_ok; intros; solve [congruence | reflexivity | eauto using pd_eq_refl, pd_eq_sym, pd_eq_trans]);
     try (intros; tauto); try exact I; try (intros; exact I).
   - apply kpart_ok.
@@ -320,4 +400,13 @@ Proof.
   - intros c ol. unfold real_wf_dict. simpl. split; intros; [split; intros; auto|exact I].
   - intros d. unfold real_wf_dict. simpl. split; intros; auto.
   - intros d _. unfold real_wf_dict. simpl. auto.
+Qed.
+
+Theorem id_codecs_closed : codecs_closed id_codecs.
+Proof.
+  constructor; simpl; try (intros c x _; exact I); try (intros; exact I).
+  - intros c x H. destruct c; try discriminate. simpl in H. destruct (forallb _ l) eqn:E; [|discriminate]. inversion H; subst. exact E.
+  - intros c l H. destruct c; try discriminate. simpl in H. destruct (forallb _ l0) eqn:E; [|discriminate]. inversion H; subst.
+    apply Forall_forall. intros e He. rewrite forallb_forall in E. exact (E e He).
+  - intros r i _ gs _. apply Forall_forall. intros; exact I.
 Qed.
